@@ -140,7 +140,7 @@ def main():
                 R.violation({'kind': 'safe mutation broke well-formedness or panicked', 'type': kind, 'initial': text, 'calls': ops, 'problems': pr,
                              'implementation': io[:2000], 'replay': "printf '%s\\n' | %s" % (line.replace('\t', '\\t'), harness)}, no_input=False)
         if line.startswith('resolve'):
-            same = io.split('\t')[1] == mo
+            same = (io.split('\t') + [''])[1] == mo
         else:
             strip = lambda s: [x for i, x in enumerate(s.split('\t')) if x not in ('0', '1', '-') or i == 0]
             same = strip(io) == strip(mo)
